@@ -62,6 +62,10 @@ CHECKS = {
    text="ChainSteps.tla with 2-3 submitter processes and a reader interleaved at repository-call grain: TLC checks LValid, NeverTwoLongestAtOneHeight, ReaderSeesValidTip and SerialOutcome (the store equals Chain.AddRow folded in SOME order) on every state, and must find the violation when the Add mutex is removed from the model (sensitivity); real goroutines (competing children of the tip, forks, children of in-flight headers, readers) run over the real SQL stack under a harness scheduler that grants repository calls one at a time in seeded random order; every snapshot after a write, every reader observation and the final store are validated by TLC against Trace_Conc.tla; the same scenarios run free under the Go race detector with HTTP readers (incl. /network/peer).",
    technique="explicit TLA+ spec (ChainSteps.tla) model-checked by TLC over all interleavings; recorded real-goroutine executions validated by TLC (Trace_Conc.tla); Go race detector as a monitor",
    note=TB + " Real-code schedules are seeded random at repository-call granularity (exhaustive enumeration is on the specification). Peer connect/disconnect churn is exercised by the C06 rig."),
+ "C19": dict(cat="exploration", ref="DESIGN.md §5 C19, §6",
+   text="Compact.tla defines target, work (by the defining inequality of floor(2^256/(t+1))) and floor(log2) over arbitrary-precision naturals implemented in TLA+ (BigNat.tla); the harness RECORDS what domains.CompactToBig / CalculateWork / FastLog2Floor compute for all 256 exponents x both signs x a 19-point mantissa lattice, real network bits and random 32-bit values, and for the window [2^k-140, 2^k+3] around every power of two; TLC validates every recorded line against the specification (exact target and sign, work inequality, work antitone between target-sorted neighbours, log2 bounds).",
+   technique="explicit TLA+ definitional spec (Compact.tla/BigNat.tla); recorded arithmetic results validated line by line by TLC (trace validation)",
+   note="Trusted: TLC, Json module. The 2^32 domain is sampled (≈1.5e4 quick, ≈2e5 thorough), not enumerated: complete enumeration is out of TLC's reach (stated in DESIGN.md §6)."),
 }
 
 NA = []
